@@ -51,17 +51,18 @@ CHECKS = {
         "no block comparison is decided by integer promotion; whole-buffer loops run over blocks 0..block_count()-1; the popcount table and the bit-reference assignment operators are folded exactly. Bit values produced by operation histories are NOT decided.",
    note="Assumes callers respect pos < size() for unchecked single-bit operations and equal sizes for blockwise operators; a restructured shift algorithm is reported as analysis-broken (exit 2), not as a violation; trusts sa/flow.py, sa/ceval.py, sa/linear.py."),
  "C17": dict(level="other", design="4.15",
-   technique="pattern-level discipline rules on canonicalised bodies (parameters/locals renamed) of every dispatcher and visitor function; linear entailment for the grow-only resize",
-   text="Decides structural clauses: lookup results are compared with end()/size before use and the error is raised; empty type lists call on_error; "
-        "each static dispatch step casts to the head type and recurses on the tail; the swapped executor call is selected exactly by symmetric && "
-        "rhs_index < lhs_index with index_of on the matching lists; registration assigns (replaces) under the key of D...; handler wrappers cast "
-        "args position-wise and append the undispatched ones; fast-dispatcher tables are resized only under size() <= index or for a fresh index; a failed "
-        "visitor cast goes to the configured catch_all policy.",
-   note="A body restructured beyond renaming is reported as analysis-broken (exit 2), not as a violation; run-time class-index state across registration histories is not decided."),
+   technique="abstract execution of INSTANTIATED dispatchers over the calls clang resolved: static_dispatcher for every pair of dynamic types (same and different rhs list, symmetric or not), basic_fast_dispatcher insert/dispatch over the nested table with three levels; path-wise guard-dominance rules for the map lookups, the visitors and resize_container (linear entailment incl. its exit postcondition)",
+   text="Decides structural clauses: static_dispatcher<(A,B,C)[, rhs (C,B)]> ends, for every pair of dynamic types, in exec.run on the two operands cast to exactly those types, swapped exactly when "
+        "symmetric and the rhs type precedes the lhs type in its list, and in exec.on_error for a type outside the lists (64 scenarios, overload selection/tag dispatch/helpers followed through the resolved callees); "
+        "basic_fast_dispatcher::dispatch calls m_callbacks[idx0][idx1][idx2](args..., udargs...) with idx_k the class index of argument k, subscripting each level only after idx_k < size() was established and raising the error otherwise; "
+        "insert<D0,D1,D2> stores the handler at that slot with the static class indices of D in order, subscripting only after resize_container; resize_container never shrinks a level and leaves index[I] < size() on every path; "
+        "in every member of basic_dispatcher an iterator from m_callback_map.find() is used only where it was compared with end(); registration assigns (replaces) under make_key<D...>(); keys come from typeid(args)...; "
+        "handler wrappers cast args position-wise and append the undispatched ones; a failed visitor cast goes to the configured catch_all policy, a successful one to visit().",
+   note="Run-time class-index state across registration histories is not decided; unrelated leaf classes stand for the dynamic types; trusts the two small interpreters in sa/rules/c17_static.py and c17_fast.py."),
  "C10": dict(level="other", design="4.8",
-   technique="forwarding/shape/operator-name agreement rules, polynomial identity of the mul/div formulas in (a,b,c,d), Annex-G idiom rule, closure-kind compile witnesses",
+   technique="symbolic evaluation of every operator / wrapper body over the parts of *this and the operands (two spellings of the same computation evaluate to the same value), truth tables of ==/!= over (real equal, imag equal), polynomial identity of the mul/div formulas in (a,b,c,d), Annex-G idiom rule, closure-kind compile witnesses",
    text="Decides structural clauses only: the 24 elementary-function wrappers call the same-named std function on std::complex<value_type>(x) in order; "
-        "==/!=/unary +/- have their defining shape; each binary operator X builds its result from the left operand and applies X= with the right; compound "
+        "==/!= have the truth table of real&&imag equality along every path, unary -/+ negate both parts / return the operand; each binary operator X builds its result from the left operand and applies X= with the right; compound "
         "scalar forms touch exactly the parts complex arithmetic says; member assignments are (real<-real, imag<-imag) symmetric; the textbook and Annex G "
         "mul/div (first attempt, recovery, scaled quotient) compute ac-bd, ad+bc, (ac+bd)/(cc+dd), (bc-ad)/(cc+dd) as polynomials; Annex G boxing idioms "
         "classify the component they box, the divisor scale is logb(max(|c|,|d|)), scalbn exponents agree; all closure-kind combinations compile.",
@@ -82,36 +83,36 @@ CHECKS = {
         "iterators must move every position field by exactly +-1/+-n (times the step) on every path, subtract/compare the same fields in the same orientation.",
    note="Traversal visiting exactly the container's elements (begin/end of each container) is covered only for the two sequence families by C11; sub-iterators are assumed lawful."),
  "C07": dict(level="proof", design="4.7",
-   technique="generated static_assert / must-compile / must-not-compile witnesses discharged by the compilers, plus def-use rules on the aliasing helpers of xclosure_wrapper/xclosure_pointer",
+   technique="generated static_assert / must-compile / must-not-compile witnesses discharged by the compilers, plus designation rules on instantiated xclosure_wrapper<T&> / <T> (what get(), operator& and the constructors designate, helpers followed through their resolved callees) and on the assignment/swap/equality patterns",
    text="Decides the type/aliasing structure for every value category: ~260 static_asserts on the four mapping traits, the factories, ref-qualified "
         "accessors of xclosure_wrapper/xoptional/xmasked_value/xcomplex (incl. mixed closures), operator& of wrappers and proxies, forward_sequence and "
         "proxy_wrapper; must-compile witnesses with a type that can be neither copied nor moved prove 'without copying it', move-only temporaries prove "
-        "ownership; must-not-compile witnesses reject writes through const closures; def-use rules check that lvalue closures store &param and "
-        "dereference it, that nothing rebinds the stored pointer, and that assignment/swap go through deref().",
+        "ownership; must-not-compile witnesses reject writes through const closures; on the instantiated wrappers an lvalue closure stores &param, get() yields *m_wrappee and operator& m_wrappee, a value closure stores the value, "
+        "yields m_wrappee and &m_wrappee; nothing rebinds the stored pointer; assignment, swap and equality act on the referents of both operands.",
    note="Checked with clang++ -std=gnu++17 and g++ -std=gnu++14 (quick) and both compilers x C++14/17/20 (thorough); const rvalue sources may map to a const value; lifetime misuse in user code is out of scope."),
  "C14": dict(level="other", design="4.12",
-   technique="call-site/effect lint over the hash call graph, interval check of byte reads, cursor-discipline rule, and agreement of the normalised operation sequence with the reference MurmurHash2/64A",
+   technique="call-site/effect lint closed under library helpers, interval check of byte reads, cursor discipline by a linear symbolic step of the block loop (cursor/remaining deltas, load offsets against the guard) and a per-remainder evaluation of the tail, and agreement of the normalised operation sequence with the reference MurmurHash2/64A",
    text="Decides structural necessary conditions: entry points forward (buffer,length,seed) unchanged to the right kernel; std::hash<xbasic_fixed_string> "
         "hashes exactly (data(), size(), constant); no pointer-to-integer conversion, non-local state, foreign callee or wider-pointer block load in the "
-        "call graph; every byte read entering arithmetic is zero-extended; every block/tail read is covered by the remaining length; and the canonicalised "
+        "call graph; every byte read entering arithmetic is zero-extended; in the 32-bit kernel the cursor advances by what the remaining length loses, each block load lies inside the bytes the loop guard guarantees and for every remainder 0..3 the tail reads exactly cursor[0..r-1]; in the 64-bit kernel the loop runs to start + (length & ~7) in steps of 8 with loads inside the block and load_bytes(end, length & 7) runs only under (length & 7) != 0; and the canonicalised "
         "statement sequence of the three kernels equals the reference algorithm (constants, shifts, order). Value equality for every input is not decided as such.",
    note="Reference sequences are transcribed in sa/rules/c14.py; a restructured kernel is reported as analysis-broken (exit 2), never as a violation; x86-64 only."),
  "C20": dict(level="other", design="4.18",
-   technique="API-misuse rule for readlink (failure test, counted use, length < capacity by linear entailment), chained-cut shape of prefix_path, endianness probe table under two include orders",
+   technique="API-misuse rule for every readlink site of the header (failure test, counted use, length < capacity by linear entailment, scalar locals read through), abstract string evaluation of prefix_path (cut = everything before the last separator), evaluation of endianness() for each value of the probe byte along every path under two include orders and three standards",
    text="Decides structural conditions on the Linux configuration: readlink's result is tested for failure, the path is built from the returned "
         "length (the buffer is never used as a C string unless a terminator byte is reserved), and the building branch implies length < capacity "
-        "(so truncation is retried); prefix_path is exactly two chained find_last_of(separator) cuts from position 0 with the separator appended once; "
-        "endianness() decides only through the switch on byte 0 of a probe with distinct bytes (MSB->big, LSB->little, else mixed).",
+        "(so truncation is retried); prefix_path evaluates to cut(cut(executable_path())) + separator in whichever spelling (helpers, npos ?: forms, += / push_back); "
+        "endianness() yields big/little/mixed exactly when byte 0 of a whole-object copy of a probe with distinct bytes is its MSB/LSB/anything else, compile-time tests folded to this target.",
    note="What the OS returns for a given install location is outside static reach; only the Linux branch of xsystem.hpp is visible in this sandbox."),
  "C13": dict(level="other", design="4.11",
-   technique="type/mask-based interval analysis of table subscripts + alphabet/sentinel agreement + guard-shape and accumulator-constant consistency rules over the resolved AST",
+   technique="type/mask-based interval analysis of table subscripts (const locals read through) + alphabet/sentinel agreement + sentinel-guard dominance in the input loop + accumulator-constant consistency, with locals substituted and comparisons normalised (operand order, negation)",
    text="Decides structural necessary conditions only: every subscript of the 256-entry decode table and of the 65-byte alphabet literal has an "
         "index whose interval (from operand types, casts and masks) lies inside the extent; the three alphabet literals equal RFC 4648, the pad is '=', "
         "the table is built as T[alphabet[i]] = i for exactly i=0..63 over a sentinel outside 0..63; the decoder tests that sentinel before a "
         "character contributes; the shift/counter/mask constants of both accumulators are mutually consistent. Round-trip equality is NOT decided.",
    note="Trusts clang's resolved AST and sa/trange.py; an accumulator of a different shape is reported as analysis-broken, not as a violation."),
  "C16": dict(level="other", design="4.14",
-   technique="symbolic linear-arithmetic entailment (guard implies range) over the span class-template pattern, wrap-free-atom lint, mode table from 4 configurations",
+   technique="symbolic linear-arithmetic entailment (guard implies range) over the span class-template pattern with helper members expanded, path-wise entailment for at(), wrap-free-atom lint, mode table from 4 configurations, body-instantiation witnesses under two compilers",
    text="For each of first/last/subspan (static and dynamic), operator[], front, back the TCB_SPAN_EXPECT condition is converted to linear facts "
         "(atoms that add two unbounded unsigned values or subtract unordered ones are rejected and reported) and must entail that the returned "
         "{data()+X, Y} lies in [0,size()] and is exactly the requested sub-range; at() must reject every idx >= size() with out_of_range; begin/end/"
